@@ -1,3 +1,2 @@
-From PLV Require Import Proofs.L2TTotalParse.
-Check parser_results_wf. Check parse_top_wf. Check run_wf.
-Print Assumptions parser_results_wf.
+From PLV Require Import Proofs.L2TFiltersCover.
+Check covered. Check kept_comment_covered. Check verbatim_math_covered.
